@@ -260,6 +260,123 @@ func refactorTree(dir, kind string) error {
 					n++
 					return true
 				})
+			case "if-to-switch":
+				// if a { A } else if b { B } else { C }   →   switch { case a: A; case b: B; default: C }
+				// (no init statements; no unlabelled break inside the bodies, which would now leave the switch)
+				conv := func(list []ast.Stmt) {
+					for i, st := range list {
+						is, ok := st.(*ast.IfStmt)
+						if !ok || is.Else == nil || is.Init != nil {
+							continue
+						}
+						var clauses []ast.Stmt
+						okChain := true
+						cur := is
+						for {
+							if cur.Init != nil || freeBreak(cur.Body) {
+								okChain = false
+								break
+							}
+							clauses = append(clauses, &ast.CaseClause{List: []ast.Expr{cur.Cond}, Body: cur.Body.List})
+							if cur.Else == nil {
+								break
+							}
+							if next, ok := cur.Else.(*ast.IfStmt); ok {
+								cur = next
+								continue
+							}
+							eb := cur.Else.(*ast.BlockStmt)
+							if freeBreak(eb) {
+								okChain = false
+							}
+							clauses = append(clauses, &ast.CaseClause{Body: eb.List})
+							break
+						}
+						if !okChain {
+							continue
+						}
+						list[i] = &ast.SwitchStmt{Body: &ast.BlockStmt{List: clauses}}
+						changed = true
+						n++
+					}
+				}
+				ast.Inspect(file, func(x ast.Node) bool {
+					switch b := x.(type) {
+					case *ast.BlockStmt:
+						conv(b.List)
+					case *ast.CaseClause:
+						conv(b.Body)
+					case *ast.CommClause:
+						conv(b.Body)
+					}
+					return true
+				})
+			case "switch-to-if":
+				// switch { case a: A; case b: B; default: C }   →   if a { A } else if b { B } else { C }
+				// (no init, no tag, one expression per case, default last or absent, no break/fallthrough that refers to the switch)
+				conv := func(list []ast.Stmt) {
+					for i, st := range list {
+						sw, ok := st.(*ast.SwitchStmt)
+						if !ok || sw.Tag != nil || sw.Init != nil || len(sw.Body.List) == 0 {
+							continue
+						}
+						okSw := true
+						for j, cs := range sw.Body.List {
+							cc := cs.(*ast.CaseClause)
+							if len(cc.List) > 1 || (len(cc.List) == 0 && j != len(sw.Body.List)-1) {
+								okSw = false
+							}
+							for _, s := range cc.Body {
+								if freeBreak(s) {
+									okSw = false
+								}
+								if br, isBr := s.(*ast.BranchStmt); isBr && (br.Tok == token.FALLTHROUGH || br.Tok == token.BREAK) {
+									okSw = false
+								}
+							}
+						}
+						if !okSw {
+							continue
+						}
+						var head, cur *ast.IfStmt
+						for _, cs := range sw.Body.List {
+							cc := cs.(*ast.CaseClause)
+							body := &ast.BlockStmt{List: cc.Body}
+							if len(cc.List) == 0 {
+								if cur == nil {
+									okSw = false
+									break
+								}
+								cur.Else = body
+								break
+							}
+							next := &ast.IfStmt{Cond: cc.List[0], Body: body}
+							if head == nil {
+								head = next
+							} else {
+								cur.Else = next
+							}
+							cur = next
+						}
+						if !okSw || head == nil {
+							continue
+						}
+						list[i] = head
+						changed = true
+						n++
+					}
+				}
+				ast.Inspect(file, func(x ast.Node) bool {
+					switch b := x.(type) {
+					case *ast.BlockStmt:
+						conv(b.List)
+					case *ast.CaseClause:
+						conv(b.Body)
+					case *ast.CommClause:
+						conv(b.Body)
+					}
+					return true
+				})
 			case "extract-cond":
 				// if <cond> { … }   →   condZqN := <cond>; if condZqN { … }     (no init statement; not an else-if)
 				ext := func(list []ast.Stmt) []ast.Stmt {
